@@ -31,7 +31,8 @@
      * the retained window is anchored at the newest clock reading the key's limiter has SEEN
        (rebuild runs only when an event of that key arrives), not at a global clock.
      * limiter expiry: limitersMap.maintenance (action Maintain, every maintenanceInterval) stamps
-       the map with a new generation and forgets every limiter whose own generation -- refreshed by
+       the map with a new generation = the wall clock, WHETHER OR NOT the map is empty (mechanism
+       M_GenAdvancesWhenEmpty), and forgets every limiter whose own generation -- refreshed by
        getOrAdd on every use -- is limiter_expiration or more behind.  An IDLE key thus loses its
        counters (and may pass a second limit in a still running bucket: outside the statement's
        retained window, accepted); a key that keeps arriving never does (BusyKeyWithinLimit).
@@ -46,7 +47,7 @@
 EXTENDS Integers, Sequences, FiniteSets, TLC, Json
 
 CONSTANTS Slices,    \* the slices to explore (<- QuickSlices | ThoroughSlices | MutantSlices | ...)
-          Mut        \* "none" | "lt" | "nozero" | "wipeprev" | "rot1" | "rotdif" | "noremap" | "future" | "shared" | "steal" | "nogen" | "orphan"
+          Mut        \* "none" | "lt" | "nozero" | "wipeprev" | "rot1" | "rotdif" | "noremap" | "future" | "shared" | "steal" | "nogen" | "orphan" | "emptyskip" | "permvals"
 
 Base == 100          \* bucket id of the first clock reading (any value far from 0)
 
@@ -57,11 +58,13 @@ VARIABLES cs,        \* the case: [sl, NK, N, C, kind, dist, lim, steps, offs, w
           passed,    \* history per key: <<bucket id, share>> -> passed events/size  (charged share)
           arrived,   \* history per key: <<bucket id, share>> -> arrived events/size (charged share)
           gm,        \* concurrent getOrAdd model (SpecMap below); constant <<>> under Spec
-          ex         \* limiters map: [cur = map generation, gen[k] = limiter's generation (-1: no limiter),
-                     \*   last[k] = generation of k's last event (-1: none), busy[k] = k had an event in
-                     \*   every generation since the start (history)]
+          rs,        \* rule selection model (SpecRule below); constant <<>> under Spec
+          ex         \* limiters map: [tick = wall clock in maintenance intervals, cur = map generation
+                     \*   (curGen: the tick of the last stamping), gen[k] = limiter's generation (-1: no
+                     \*   limiter), last[k] = tick of k's last event (-1: none), busy[k] = since its first
+                     \*   event k had an event in every maintenance interval (history)]
 
-vars == <<cs, hist, now, lims, passed, arrived, ex, gm>>
+vars == <<cs, hist, now, lims, passed, arrived, ex, gm, rs>>
 
 -----------------------------------------------------------------------------
 (* slices.  nk keys; n events; counts = buckets_count values; limits per key; kinds 0 = count,
@@ -244,8 +247,9 @@ Init ==
   /\ lims = [k \in Keys |-> NewLimiter(cs.C, cs.dist)]
   /\ passed = [k \in Keys |-> <<>>]
   /\ arrived = [k \in Keys |-> <<>>]
-  /\ ex = [cur |-> 0, gen |-> [k \in Keys |-> -1], last |-> [k \in Keys |-> -1], busy |-> [k \in Keys |-> TRUE]]
-  /\ gm = <<>>
+  /\ ex = [tick |-> 0, cur |-> 0, gen |-> [k \in Keys |-> -1], last |-> [k \in Keys |-> -1],
+           busy |-> [k \in Keys |-> TRUE]]
+  /\ gm = <<>> /\ rs = <<>>
 
 (* the clock advances by step, then an event of key k with time now+off, size w and distribution
    value v reaches Plugin.isAllowed: first matching rule -> limitersMap.getOrAdd(rule prefix + key)
@@ -265,23 +269,26 @@ Arrive(k, step, off, w, v) ==
                                 id |-> r.id, sh |-> r.sh, ok |-> r.ok])
        /\ arrived' = [arrived EXCEPT ![k] = Bump(@, <<r.id, r.sh>>, w)]
        /\ passed' = [passed EXCEPT ![k] = IF r.ok THEN Bump(@, <<r.id, r.sh>>, w) ELSE @]
-       /\ ex' = [ex EXCEPT !.gen[k] = IF Mut = "nogen" /\ @ >= 0 THEN @ ELSE ex.cur, !.last[k] = ex.cur]
-       /\ UNCHANGED <<cs, gm>>
+       /\ ex' = [ex EXCEPT !.gen[k] = IF Mut = "nogen" /\ @ >= 0 THEN @ ELSE ex.cur, !.last[k] = ex.tick]
+       /\ UNCHANGED <<cs, gm, rs>>
 
 (* limitersMap.maintenance, one round under l.mu: curGen := now; delete every limiter with
    now - gen >= limitersExp.  (Recorded in hist with key 0 so that schedules stay distinct.) *)
+M_GenAdvancesWhenEmpty == Mut # "emptyskip"
 Maintain ==
-  LET cur2 == ex.cur + 1
-      gone == {k \in Keys : ex.gen[k] >= 0 /\ cur2 - ex.gen[k] >= cs.E}
+  LET t2 == ex.tick + 1
+      skip == ~M_GenAdvancesWhenEmpty /\ \A k \in Keys : ex.gen[k] = -1     \* mutant: "nothing to clean up"
+      gone == IF skip THEN {} ELSE {k \in Keys : ex.gen[k] >= 0 /\ t2 - ex.gen[k] >= cs.E}
   IN /\ cs.E > 0
      /\ lims' = [k \in Keys |-> IF k \in gone THEN NewLimiter(cs.C, cs.dist) ELSE lims[k]]
-     /\ ex' = [cur |-> cur2,
+     /\ ex' = [tick |-> t2,
+               cur |-> IF skip THEN ex.cur ELSE t2,
                gen |-> [k \in Keys |-> IF k \in gone THEN -1 ELSE ex.gen[k]],
                last |-> ex.last,
-               busy |-> [k \in Keys |-> ex.busy[k] /\ ex.last[k] = ex.cur]]
+               busy |-> [k \in Keys |-> ex.busy[k] /\ (ex.last[k] = -1 \/ ex.last[k] = ex.tick)]]
      /\ hist' = Append(hist, [k |-> 0, now |-> now, ts |-> now, w |-> 0, v |-> 0, hi |-> 0, b |-> 0,
                               must |-> 2, id |-> 0, sh |-> 0, ok |-> TRUE])
-     /\ UNCHANGED <<cs, now, passed, arrived, gm>>
+     /\ UNCHANGED <<cs, now, passed, arrived, gm, rs>>
 
 Next ==
   /\ Len(hist) < cs.N
@@ -333,14 +340,15 @@ NoEarlyReject ==
    the implementation's bucket id is the declaratively charged one *)
 Remap == \A i \in 1..Len(hist) : hist[i].id = hist[i].b
 
-(* expiry on: a key that keeps arriving (an event in every maintenance generation) never loses its
+(* expiry on: a key that keeps arriving (from its first event on, an event in every maintenance
+   interval -- however long the map was empty before) never loses its
    counters, so it stays within the limit per bucket and share whatever the maintenance schedule *)
 BusyKeyWithinLimit ==
   \A k \in Keys : ex.busy[k] => \A x \in DOMAIN passed[k] : passed[k][x] <= SL(k, x[2])
 
 (* a limiter is forgotten only after limiter_expiration without use *)
 EvictedOnlyIdle ==
-  \A k \in Keys : (ex.last[k] >= 0 /\ ex.gen[k] = -1) => ex.cur - ex.last[k] >= cs.E
+  \A k \in Keys : (ex.last[k] >= 0 /\ ex.gen[k] = -1) => ex.tick - ex.last[k] >= cs.E
 
 (* the statement itself, by distribution VALUE, for the bucket just touched *)
 ValueWithinShare ==
@@ -391,7 +399,7 @@ GProcs == 1..GP
 InitMap ==
   /\ cs = [sl |-> "map", NK |-> 0, N |-> 0, C |-> 1, kind |-> 0, dist |-> 0, lim |-> <<>>,
             steps |-> {}, offs |-> {}, ws |-> {}, E |-> 0]
-  /\ hist = <<>> /\ now = Base /\ lims = <<>> /\ passed = <<>> /\ arrived = <<>> /\ ex = <<>>
+  /\ hist = <<>> /\ now = Base /\ lims = <<>> /\ passed = <<>> /\ arrived = <<>> /\ ex = <<>> /\ rs = <<>>
   /\ gm = [map |-> <<>>,                          \* l.lims : key -> limiter id
            cnt |-> <<>>,                          \* limiter id -> bucket counter
            next |-> 1,                            \* next limiter id
@@ -433,7 +441,7 @@ GUse(p) ==
 
 NextMap ==
   /\ \E p \in GProcs : (\E k \in 1..GK : GStart(p, k)) \/ GFast(p) \/ GSlow(p) \/ GUse(p)
-  /\ UNCHANGED <<cs, hist, now, lims, passed, arrived, ex>>
+  /\ UNCHANGED <<cs, hist, now, lims, passed, arrived, ex, rs>>
 
 SpecMap == InitMap /\ [][NextMap]_vars
 
@@ -443,6 +451,53 @@ MapNoEarlyReject == ~gm.early
 (* every caller works on the limiter stored for its key *)
 MapOneLimiterPerKey ==
   \A p \in GProcs : gm.pc[p] = "use" => (gm.key[p] \in DOMAIN gm.map /\ gm.lim[p] = gm.map[gm.key[p]])
+
+-----------------------------------------------------------------------------
+(* SpecRule -- "the limit selected by the first matching rule" (rule.go newRule / isMatch, throttle.go
+   Plugin.isAllowed's loop over p.rules).  A rule's conditions are a map field -> value; newRule keeps
+   the field names SORTED in r.fields and the values IN THE SAME ORDER in r.values (mechanism
+   M_ValuesFollowKeys; Go iterates a map in random order, so the order has to be re-established);
+   isMatch: every r.fields[i] of the event equals r.values[i].  Rules are tried in configuration order,
+   the default rule (no conditions) is last.
+   Declarative: a rule matches iff every (field, value) pair of ITS OWN condition map holds for the
+   event; the limit that governs the event is that of the first matching rule.
+   Scope: 2 rules + default, 0..3 conditions each over 3 fields x 2 values, events with every field
+   absent / value 1 / value 2 (all of / some of / none of a rule's conditions hold). *)
+M_ValuesFollowKeys == Mut # "permvals"
+RFields == 1..3
+RConds == [RFields -> 0..2]        \* 0 = no condition on the field
+REvents == [RFields -> 0..2]       \* 0 = field absent
+
+RKeys(c) == SelectSeq(<<1, 2, 3>>, LAMBDA f : c[f] # 0)                  \* sort.Strings(keys)
+RVals(c) == [i \in 1..Len(RKeys(c)) |-> c[RKeys(c)[i]]]                  \* values[i] = conditions[keys[i]]
+RPerms(n) == {p \in [1..n -> 1..n] : \A i, j \in 1..n : p[i] = p[j] => i = j}
+RValsImpl(c) == IF M_ValuesFollowKeys THEN {RVals(c)}
+                ELSE {[i \in 1..Len(RKeys(c)) |-> RVals(c)[p[i]]] : p \in RPerms(Len(RKeys(c)))}
+RIsMatch(keys, vals, e) == \A i \in 1..Len(keys) : e[keys[i]] = vals[i]
+RDeclMatch(c, e) == \A f \in RFields : c[f] # 0 => e[f] = c[f]
+RDeclSel(rules, e) == IF RDeclMatch(rules[1], e) THEN 1 ELSE IF RDeclMatch(rules[2], e) THEN 2 ELSE 3
+
+InitRule ==
+  /\ cs = [sl |-> "rules", NK |-> 0, N |-> 0, C |-> 1, kind |-> 0, dist |-> 0, lim |-> <<>>,
+            steps |-> {}, offs |-> {}, ws |-> {}, E |-> 0]
+  /\ hist = <<>> /\ now = Base /\ lims = <<>> /\ passed = <<>> /\ arrived = <<>> /\ ex = <<>> /\ gm = <<>>
+  /\ \E c1 \in RConds : \E c2 \in RConds : \E e \in REvents : rs = [rules |-> <<c1, c2>>, ev |-> e, sel |-> 0]
+
+(* Start builds the rules (newRule), then the event runs through Plugin.isAllowed's loop *)
+NextRule ==
+  /\ rs.sel = 0
+  /\ \E v1 \in RValsImpl(rs.rules[1]) : \E v2 \in RValsImpl(rs.rules[2]) :
+       rs' = [rs EXCEPT !.sel = IF RIsMatch(RKeys(rs.rules[1]), v1, rs.ev) THEN 1
+                                ELSE IF RIsMatch(RKeys(rs.rules[2]), v2, rs.ev) THEN 2 ELSE 3]
+  /\ UNCHANGED <<cs, hist, now, lims, passed, arrived, ex, gm>>
+
+SpecRule == InitRule /\ [][NextRule]_vars
+
+FirstMatchingRuleGoverns == rs.sel # 0 => rs.sel = RDeclSel(rs.rules, rs.ev)
+
+ExportRule == rs.sel # 0 =>
+  PrintT(ToJson([r |-> [i \in 1..2 |-> [f \in 1..3 |-> rs.rules[i][f]]], e |-> [f \in 1..3 |-> rs.ev[f]],
+                 want |-> RDeclSel(rs.rules, rs.ev)]))
 
 -----------------------------------------------------------------------------
 (* export of every explored history with the decision the transcription takes (ok) and what the
